@@ -9,6 +9,9 @@
 #include <qsmtpd/antispam.h>
 #include <qsmtpd/qsmtpd.h>
 
+#include <string.h>
+#include <strings.h>
+
 /**
  * @brief check an email address for syntax errors and/or existence
  *
@@ -66,7 +69,8 @@ addrparse(char *in, const int flags, string *addr, char **more, struct userconf 
 		size_t intro = strlen("@[");
 
 		j = 0;
-		if (strncmp(at + intro, "IPv6:", strlen("IPv6:")) == 0)
+		/* addrsyntax() has converted the address to lower case, including the tag */
+		if (strncasecmp(at + intro, "IPv6:", strlen("IPv6:")) == 0)
 			intro += strlen("IPv6:");
 
 		/* FIXME: this fails if the representations of the IPv6 address don't match */
